@@ -425,6 +425,13 @@ class DetectReadsWritesCalls( DetectVarNames ):
         self.read.append( pair )
       elif isinstance( node.ctx, ast.Store ):
         self.write.append( pair )
+    # A variable of construct() may hold a part of the component
+    if node.id in self.closure and node.id not in self.locals and node.id != "s":
+      pair = ( [ (node.id, []) ], [ node, node ], self.current_op )
+      if   isinstance( node.ctx, ast.Load ):
+        self.read.append( pair )
+      elif isinstance( node.ctx, ast.Store ):
+        self.write.append( pair )
 
   def visit_AugAssign( self, node ):
     if isinstance( node.target, ast.Name ) and not isinstance( node.op, (ast.MatMult, ast.LShift) ):
